@@ -98,8 +98,7 @@ def check(run):
     run.nontrivial = {str(x) for x in run.nontrivial}
     run.sample({"case": cases[-1][:500], "impl": io[-1][:500]})
     report_diffs(run, diffs, "coq/Client.v", "zvt_feig_terminal::feig", "client")
-    if any(not v.get("no_failing_input_found") for v in run.violations):
-        run.violations = [v for v in run.violations if not v.get("no_failing_input_found")]
+    vlib.prefer_concrete(run)
     return vlib.finish(run, trusted_base=TB, assumptions=["the exact request order is decided by the byte-exact per-connection write log of the real client against the expected chain"])
 
 
